@@ -48,11 +48,14 @@ func (x *Int32) Swap(v int32) int32             { pto(x); return x.v.Swap(v) }
 func (x *Int32) CompareAndSwap(o, n int32) bool { pto(x); return x.v.CompareAndSwap(o, n) }
 func (x *Int32) Add(d int32) int32              { pto(x); return x.v.Add(d) }
 
-func LoadInt32(a *int32) int32                      { pto(a); return atomic.LoadInt32(a) }
-func StoreInt32(a *int32, v int32)                  { pto(a); atomic.StoreInt32(a, v) }
-func SwapInt32(a *int32, v int32) int32             { pto(a); return atomic.SwapInt32(a, v) }
-func AddInt32(a *int32, d int32) int32              { pto(a); return atomic.AddInt32(a, d) }
-func CompareAndSwapInt32(a *int32, o, n int32) bool { pto(a); return atomic.CompareAndSwapInt32(a, o, n) }
+func LoadInt32(a *int32) int32          { pto(a); return atomic.LoadInt32(a) }
+func StoreInt32(a *int32, v int32)      { pto(a); atomic.StoreInt32(a, v) }
+func SwapInt32(a *int32, v int32) int32 { pto(a); return atomic.SwapInt32(a, v) }
+func AddInt32(a *int32, d int32) int32  { pto(a); return atomic.AddInt32(a, d) }
+func CompareAndSwapInt32(a *int32, o, n int32) bool {
+	pto(a)
+	return atomic.CompareAndSwapInt32(a, o, n)
+}
 
 type Int64 struct{ v atomic.Int64 }
 
@@ -62,11 +65,14 @@ func (x *Int64) Swap(v int64) int64             { pto(x); return x.v.Swap(v) }
 func (x *Int64) CompareAndSwap(o, n int64) bool { pto(x); return x.v.CompareAndSwap(o, n) }
 func (x *Int64) Add(d int64) int64              { pto(x); return x.v.Add(d) }
 
-func LoadInt64(a *int64) int64                      { pto(a); return atomic.LoadInt64(a) }
-func StoreInt64(a *int64, v int64)                  { pto(a); atomic.StoreInt64(a, v) }
-func SwapInt64(a *int64, v int64) int64             { pto(a); return atomic.SwapInt64(a, v) }
-func AddInt64(a *int64, d int64) int64              { pto(a); return atomic.AddInt64(a, d) }
-func CompareAndSwapInt64(a *int64, o, n int64) bool { pto(a); return atomic.CompareAndSwapInt64(a, o, n) }
+func LoadInt64(a *int64) int64          { pto(a); return atomic.LoadInt64(a) }
+func StoreInt64(a *int64, v int64)      { pto(a); atomic.StoreInt64(a, v) }
+func SwapInt64(a *int64, v int64) int64 { pto(a); return atomic.SwapInt64(a, v) }
+func AddInt64(a *int64, d int64) int64  { pto(a); return atomic.AddInt64(a, d) }
+func CompareAndSwapInt64(a *int64, o, n int64) bool {
+	pto(a)
+	return atomic.CompareAndSwapInt64(a, o, n)
+}
 
 type Uint32 struct{ v atomic.Uint32 }
 
